@@ -24,7 +24,16 @@ TRUNCATED = ['4', '16.', '*cle', '*k[f#', '*M4/', '*met(c', '4%', '8q', '*clef']
 GARBAGE_APPENDED = ['4c%%', '=1x', '*clefG9', '4cc#4%', '=1||x', '2.r%', '*M4/4x', '4c 4e%', '====', '*k[f#]c']
 # cells on which the recogniser reports an error AND the token builder raises (rests with note-only signifiers ...)
 BUILDER_RAISES = ['8rJ', '2r[', 'r]', '2r;]', '4r_', '4rL', 'z2r[', '4r/']
-MALFORMED = UNKNOWN + WRONG_ORDER + TRUNCATED + GARBAGE_APPENDED + BUILDER_RAISES
+# characters the lexer cannot tokenise at all (control characters, non-ASCII), at the start, inside and at the end
+NONASCII = ['4f\u266f', '4\u00a0f#', '\u00bf4E', '4a\x7fL', '4c\u266d', '\u00e9', '\u65e54c', '4c\x01', '\x1b4c']
+MALFORMED = UNKNOWN + WRONG_ORDER + TRUNCATED + GARBAGE_APPENDED + BUILDER_RAISES + NONASCII
+# malformed by construction (an unknown character, a wrong order, a truncation that is no token): a kern spine MUST
+# report these, whatever the recogniser of the tree under test says.  (The others are a valid token followed by
+# garbage, which kernpy accepts and shortens - finding K7 - so for them the recogniser's own verdict is used.)
+MUST_REJECT = {'4zz', 'h', '\u00d64c', '\u00a7', '4c 4zz', '%%', '4&c&&', 'u', 'c4', '#4c', 'c#4', '4#c', 'r4', '=|1|', '=:1',
+               '4', '16.', '*cle', '*k[f#', '*M4/', '*met(c', '4%', '8q', '*clef', '4cc#4%',
+               '8rJ', '2r[', 'r]', '2r;]', '4r_', '4rL', 'z2r[', '4r/',
+               '4f\u266f', '4\u00a0f#', '\u00bf4E', '4a\x7fL', '4c\u266d', '\u00e9', '\u65e54c', '4c\x01', '\x1b4c'}
 
 
 def fresh_outcome(kp, s):
@@ -105,7 +114,7 @@ def doc_worker(kp, job):
     ref, rerrs = kp.loads(clean)
     w = {'text': text, 'malformed': placed}
     # expected errors: malformed cells in kern-parsed spines that the recogniser rejects (one each, with the line number)
-    exp = [(ln, m) for ln, ci, m, ht in placed if ht in ('**kern', '**root') and docs.kern_rejects(kp, m)]
+    exp = [(ln, m) for ln, ci, m, ht in placed if ht in ('**kern', '**root') and (m in MUST_REJECT or docs.kern_rejects(kp, m))]
     base = [(e.line, e.encoding) for e in rerrs]
     got = [(e.line, e.encoding) for e in errs]
     if sorted(got) != sorted(exp + base):
@@ -126,7 +135,7 @@ def doc_worker(kp, job):
     out = docs.impl_dumps(kp, doc)
     if out.startswith('ok:'):
         for ln, ci, m, ht in placed:
-            rejected = docs.kern_rejects(kp, m) and ht in ('**kern', '**root')
+            rejected = (m in MUST_REJECT or docs.kern_rejects(kp, m)) and ht in ('**kern', '**root')
             if ht not in ('**kern', '**root'):
                 continue
             if rejected and m.replace('@', '').replace('·', '') not in out:
@@ -139,7 +148,7 @@ def doc_worker(kp, job):
                 except Exception:
                     ex = None
                 canon_ok = ex is not None and len(ex) >= len(m) - m.count(' ') - sum(ch.isdigit() for ch in m[:0])
-                if m in GARBAGE_APPENDED and ex is not None and not _covers(ex, m):
+                if ex is not None and not _covers(ex, m):
                     viol.append(('not-shortened', f'prefix-accepted: the malformed cell {m!r} is accepted without error and exported as {ex!r}', w))
     r = engine.rec('damaged', impl=dump, req=('import', [C1.join(bad), text]), viol=viol, kind=f'{len(placed)}-malformed', key=text,
                    sample={'text': text, 'malformed': placed, 'errors': got} if idx % 37 == 0 else None)
